@@ -262,9 +262,9 @@ def run(res, proof):
         proof.problem('driver', str(e))
     # MacrostateS.identifiers / ReactionS.identifiers as translated from the working tree (Gen/PyIdentifiers2.lean) against the real classmethods
     from .pyident2_stream import source_derived_pyident2
-    source_derived_pyident2(res, proof)
+    core.run_stream(source_derived_pyident2, res, proof)
     from .pysetobj_stream import source_derived_pysetobj
-    source_derived_pysetobj(res, proof)
+    core.run_stream(source_derived_pysetobj, res, proof)
     res.sample(lines[:12])
 
 
